@@ -244,6 +244,27 @@ Qed.
 Lemma llid_roundtrip f : fragment_of_llid (llid_of_fragment f) = f.
 Proof. destruct f; reflexivity. Qed.
 
+Lemma of_to_ll f : of_ll (to_ll f) = f.
+Proof. destruct f as [b d]. unfold of_ll, to_ll. cbn [fst snd]. rewrite llid_roundtrip. reflexivity. Qed.
+
+(** End to end through both link layers. *)
+Lemma ll_reassembly_inverse mtu cid sdu st0 :
+  2 <= mtu -> (nlen sdu < 65536)%N -> (cid < 65536)%N ->
+  recv_all_ll st0 (send_sdu_ll mtu cid sdu)
+  = (deliverable cid sdu, {| fifo := None; expected := length sdu + 4 |}).
+Proof.
+  intros. unfold recv_all_ll, send_sdu_ll. rewrite map_map.
+  rewrite (map_ext _ (fun f => f)) by apply of_to_ll. rewrite map_id.
+  apply reassembly_inverse; assumption.
+Qed.
+
+Lemma ll_start_llid mtu cid sdu :
+  2 <= mtu -> exists d ds, send_sdu_ll mtu cid sdu = (2%N, d) :: map (fun q => (1%N, q)) ds.
+Proof.
+  intros Hm. destruct (flags mtu cid sdu Hm) as (d & ds & Hs). unfold send_sdu_ll. rewrite Hs.
+  exists d, ds. cbn [map to_ll fst snd llid_of_fragment]. rewrite map_map. reflexivity.
+Qed.
+
 (** A truncated frame (fewer bytes than announced) delivers nothing by itself. *)
 Lemma truncated_start_delivers_nothing st d :
   2 <= length d -> length d < N.to_nat (un_le16 d) + 4 ->
